@@ -47,6 +47,9 @@ def one(e, base):
     elif e.get('generator') == 'hoist-conditions':
         from hoist_conditions import main as hoist
         hoist(d)
+    elif e.get('generator') == 'alias-switch':
+        from alias_switch import main as aliassw
+        aliassw(d)
     elif e.get('generator') == 'insert-noops':
         from insert_noops import main as noops
         noops(d)
